@@ -703,7 +703,7 @@ var soupAlphabet = []tagTok{
 	{"@", "@"}, {"@", "@"}, {"(", "("}, {")", ")"}, {"[", "["}, {"]", "]"}, {"{", "{"}, {"}", "}"}, {"|", "|"}, {"?", "?"}, {"*", "*"}, {"+", "+"},
 	{"!", "!"}, {"~", "~"}, {":", ":"}, {"=", "="}, {"lit", `"a"`}, {"lit", `'b'`}, {"lit", "`c`"}, {"lit", `"+"`}, {"lit", `""`},
 	{"ident", "Ident"}, {"ident", "Int"}, {"ident", "String"}, {"ident", "EOF"}, {"ident", "Unknown"}, {"ident", "ident"},
-	{"lit", `"unterminated`}, {"junk", "1"}, {"junk", "1.5"}, {"junk", "\\"}, {"junk", "#"}, {"junk", ";"},
+	{"lit", `"unterminated`}, {"lit", "'"}, {"lit", "`raw"}, {"junk", "/*"}, {"junk", "1"}, {"junk", "1.5"}, {"junk", "\\"}, {"junk", "#"}, {"junk", ";"},
 }
 
 func genValidToks(t *rapid.T, depth int) []tagTok {
@@ -896,10 +896,17 @@ func propC19(t *rapid.T, r *vstat.Run) {
 		default:
 			c.Origin = "rawsoup"
 			// raw byte soup as the tag text, incl. NUL and invalid UTF-8
-			raw := rapid.StringOfN(rapid.RuneFrom([]rune("@()[]{}|?*+!~:=\"'`aI \x00\\\n:日")), 0, 14, -1).Draw(t, "raw")
+			raw := rapid.StringOfN(rapid.RuneFrom([]rune("@()[]{}|?*+!~:=\"'`aI /\x00\\\n:日")), 0, 14, -1).Draw(t, "raw")
 			c.Fields = []c19Field{{Type: "string", Raw: raw, Form: rapid.IntRange(0, 1).Draw(t, "form")}}
 			if raw == "" {
 				c.Fields[0].Raw = "@"
+			}
+			// the soup may be the tag of a later field: every tag of a struct is lexed with the same care as the first
+			if rapid.Bool().Draw(t, "later") {
+				c.Fields = append([]c19Field{{Type: "string", Toks: []tagTok{{"@", "@"}, {"ident", "Ident"}}, Form: rapid.IntRange(0, 1).Draw(t, "form0")}}, c.Fields...)
+				if rapid.Bool().Draw(t, "after") {
+					c.Fields = append(c.Fields, c19Field{Type: "string", Toks: []tagTok{{"@", "@"}, {"ident", "Int"}}})
+				}
 			}
 		}
 		report(t, r, checkC19(c, r), c)
